@@ -47,7 +47,17 @@ def search(ctx, deep):
         texts.append(oracles.witness_program([gen.gen_dform(r, 2, ATOMS2)], ATOMS2, "del"))
         texts.append("#program {}. &tel {{ {} }}. #program always. {{ a }}.".format(r.choice(["initial", "always", "dynamic"]),
                                                                                  tl.render_tel(gen.gen_hform(r, 2, ATOMS2))))
-    work = [(ctx.seed + j, c, 3) for j, c in enumerate(par.chunks(texts, ctx.jobs * 2))]
+    # one predicate reached through future heads of different depths, from different parts (the auxiliary future atoms of one
+    # signature then enter the atom table out of time order), every horizon up to the larger depth + 1
+    for d1 in (1, 2, 3):
+        for d2 in (1, 2, 3):
+            if d1 == d2:
+                continue
+            for p1, p2 in (("always", "initial"), ("initial", "always"), ("dynamic", "initial"), ("always", "dynamic")):
+                for sgn in ("", "-"):
+                    texts.append("#program always. {{a}}. #program {}. {}p{} :- a. #program {}. {}p{}.".format(
+                        p1, sgn, "'" * d1, p2, sgn, "'" * d2))
+    work = [(ctx.seed + j, c, 4) for j, c in enumerate(par.chunks(texts, ctx.jobs * 2))]
     nsets = 0
     fails = []
     for c, f in par.pmap(_mon_chunk, work, ctx.jobs):
